@@ -1,10 +1,95 @@
 import TwigModel.Proto
+import TwigModel.Render
 open Lean
 namespace Twig.Ops
 
-/-- driver ops of the Render area (see the module TwigModel.Render); `none` = not one of ours -/
+/-- JSON → Val: null | bool | integer | {"s":hex} | {"l":[…]} | {"m":[[hexkey,val],…]} -/
+partial def valOfJson (j : Json) : Except String Val :=
+  match j with
+  | .null => pure .null
+  | .bool x => pure (.bool x)
+  | .num n => if n.exponent == 0 then pure (.int n.mantissa) else throw "non-integer number"
+  | .obj _ =>
+    match j.getObjVal? "s" with
+    | .ok s => do pure (.str (← Proto.asBytes s))
+    | .error _ =>
+      match j.getObjVal? "l" with
+      | .ok (.arr xs) => do pure (.list (← xs.toList.mapM valOfJson))
+      | _ =>
+        match j.getObjVal? "m" with
+        | .ok (.arr kvs) => do
+          let ps ← kvs.toList.mapM fun kv => match kv with
+            | .arr #[k, v] => do pure ((← Proto.asBytes k), (← valOfJson v))
+            | _ => throw "bad map entry"
+          pure (.map (ps.foldl (fun acc kv => mapInsert kv.1 kv.2 acc) []))
+        | _ => throw "bad value object"
+  | _ => throw "bad value"
+
+def bytesList (j : Json) (k : String) : Except String (List Bytes) :=
+  match j.getObjVal? k with
+  | .ok (.arr xs) => xs.toList.mapM Proto.asBytes
+  | _ => pure []
+
+def errClassStr : ErrClass → String
+  | .parse => "parse" | .notFound => "notFound" | .security => "security" | .render => "render"
+
+def kindStr : CbKind → String
+  | .filter => "filter" | .function => "function" | .test => "test"
+
+def errJson : Err → Json
+  | .error cls causes msg => Proto.ok [("err", Json.str (errClassStr cls)),
+      ("causes", Json.arr (causes.map (fun (n : Nat) => (n : Json))).toArray), ("msg", Json.str msg)]
+  | .unsupported why => Proto.ok [("unsupported", Json.str why)]
+  | .fuel => Proto.ok [("fuel", Json.bool true)]
+
+def parseAll : List (Bytes × Bytes) → R (List (Bytes × List Node))
+  | [] => .ok []
+  | (n, src) :: r => do
+    let nodes ← parseTemplate src
+    let rest ← parseAll r
+    .ok ((n, nodes) :: rest)
+
+/-- ops: render (whole pipeline: scan → parse → render), parse (ok / parse error + AST dump) -/
 def renderOps (op : String) (j : Json) : Option (Except String Json) :=
   match op with
+  | "render" => some do
+    let tplsJ ← Proto.getArr j "templates"
+    let tpls ← tplsJ.toList.mapM fun t => match t with
+      | .arr #[n, s] => do pure ((← Proto.asBytes n), (← Proto.asBytes s))
+      | _ => throw "bad template entry"
+    let main ← Proto.getBytes j "main"
+    let ctxV ← match j.getObjVal? "ctx" with
+      | .ok c => valOfJson c
+      | .error _ => pure (.map [])
+    let vars := match ctxV with
+      | .map kvs => kvs
+      | _ => []
+    let pol := j.getObjVal? "policy"
+    let (hasPolicy, af, afn) ← match pol with
+      | .ok (.obj o) => do
+        let pj := Json.obj o
+        pure (true, (← bytesList pj "filters"), (← bytesList pj "functions"))
+      | _ => pure (false, [], [])
+    let spy := (j.getObjVal? "spy").toOption.getD (Json.mkObj [])
+    let failAt := (Proto.getNat j "failAt").toOption
+    let facts := if (Proto.getStr j "facts").toOption == some "pinned" then SbxFacts.pinned else SbxFacts.fixed
+    match parseAll tpls with
+    | .error e => pure (errJson e)
+    | .ok parsed =>
+      let E : Env := { tpls := parsed, F := facts, hasPolicy := hasPolicy, allowedFilters := af, allowedFunctions := afn,
+                       spyFilters := (bytesList spy "filters").toOption.getD [],
+                       spyFunctions := (bytesList spy "functions").toOption.getD [],
+                       spyTests := (bytesList spy "tests").toOption.getD [], failAt := failAt }
+      match renderTop E main vars with
+      | .error e => pure (errJson e)
+      | .ok (out, trace) =>
+        pure (Proto.ok [("out", Proto.hex out),
+          ("trace", Json.arr (trace.map (fun ev => Json.arr #[Json.str (kindStr ev.kind), Proto.hex ev.name, Json.bool ev.inside, Json.bool ev.spy])).toArray)])
+  | "parse" => some do
+    let src ← Proto.getBytes j "src"
+    match parseTemplate src with
+    | .error e => pure (errJson e)
+    | .ok nodes => pure (Proto.ok [("ok", Json.bool true), ("ast", Json.str (toString (repr nodes)))])
   | _ => none
 
 end Twig.Ops
